@@ -342,4 +342,319 @@ theorem rmImm8_formOk (ctx : Spec.X86.Ctx) (rule : Rule) (opcode d r0 : BitVec 3
         rw [← hrb]; simp [fix1, e1, e2]
       exact regOkB_plain k0 _ _ p h (by rw [e])
 
+/-- shape [rm, x] with digit `d`, any second operand whose own conditions hold (`hic`), any immediate width: whatever `EmitX86R` emits (when it accepts) satisfies the monitor - ALL registers of ALL sizes, incl.
+AH..BH (4..7, no REX) and SPL..DIL (forced REX) -/
+theorem rmAny_formOk (ctx : Spec.X86.Ctx) (rule : Rule) (opcode d r0 : BitVec 32) (k0 : RegKind) (f0 f3 : FormOp) (o1 : Operand) (imm : BitVec 64) (n : Nat)
+    (hm64 : ctx.mode64 = true) (hmode : (rule.modes &&& 2 != 0) = true) (hopc : opcode &&& 0xF7801C00#32 = 0#32)
+    (hk0 : k0 = .gpb ∨ k0 = .gpbhi ∨ PlainKind k0) (hd : d < 8#32)
+    (h0 : r0 < 16#32) (h0' : k0 = .gpbhi → r0 < 4#32)
+    (R : LegRuleD rule n ((opcode >>> 21) &&& 3#32).toNat d.toNat) (A : LegAgree rule opcode)
+    (hr0 : f0.role = .rm) (ho1 : (∃ v, o1 = .imm v) ∨ (∃ k i, o1 = .reg k i))
+    (hic : ∀ p : Parsed, p.imm = emitImmediate imm n → allOk (opConds ctx rule p 0 f3 o1).1 = true)
+    (hal : alignOps rule.oszEff rule.ops [.reg k0 r0.toNat, o1] = some [(f0, some (.reg k0 r0.toNat)), (f3, some o1)])
+    (bytes : List (BitVec 8))
+    (hb : emitX86R opcode (fix1 k0 r0).1 d (fix1 k0 r0).2 imm n = .ok bytes) :
+    formOk ctx rule [.reg k0 r0.toNat, o1] {} bytes = true := by
+  generalize hopt : (fix1 k0 r0).1 = opt at hb
+  generalize hrb : (fix1 k0 r0).2 = rb at hb
+  have hfacts : opt &&& 0x3FFFFFFF#32 = 0#32 ∧ rb < 16#32 := by
+    rw [← hopt, ← hrb]
+    rcases hk0 with h | h | h
+    · subst h
+      simp only [fix1, fixK, oRex, oInvalidRex, beq_self_eq_true, Bool.true_or, ↓reduceIte, show (RegKind.gpb == RegKind.gpbhi) = false from rfl, Bool.false_eq_true]
+      split <;> refine ⟨?_, ?_⟩ <;> bv_decide
+    · subst h
+      have a := h0' rfl
+      simp only [fix1, fixK, oRex, oInvalidRex, beq_self_eq_true, Bool.or_true, ↓reduceIte]
+      refine ⟨?_, ?_⟩ <;> bv_decide
+    · obtain ⟨n1, n2, -⟩ := h
+      have e1 : (k0 == RegKind.gpb) = false := by simpa using n2
+      have e2 : (k0 == RegKind.gpbhi) = false := by simpa using n1
+      simp only [fix1, e1, e2, Bool.or_self, Bool.false_eq_true, ↓reduceIte]
+      exact ⟨by decide, h0⟩
+  obtain ⟨hoptm, hrb16⟩ := hfacts
+  by_cases hok : (extractRex opcode opt ||| ((d &&& 8#32) >>> 1) ||| ((rb &&& 8#32) >>> 3)) > 0x80#32
+  · rw [emitX86R_invalidRex opcode opt d rb imm n hok] at hb
+    cases hb
+  · obtain ⟨bytes', p, hb', hp, P, hR, hB, hi, hrex, hvk⟩ := x86R_parsedO rule opcode opt d rb imm n hopc hoptm (by bv_decide) hrb16 hok d.toNat R A
+    rw [hb'] at hb
+    injection hb with hb
+    subst hb
+    refine leg_rm_any_formOkG ctx rule p _ _ _ d.toNat n k0 f0 f3 _ o1 ho1 (by simpa [hm64] using hmode) R
+      (by simpa [BitVec.lt_def] using hd) (modrmRR_reg d rb hd) hr0 (hic p hi) ?_ hal (by rw [hm64]; exact hp) P
+    rw [hB]
+    rcases hk0 with h | h | h
+    · subst h
+      have e : rb = r0 := by rw [← hrb]; simp [fix1, fixK]
+      refine regOkB_gpb _ _ p (by rw [e]) ?_
+      intro h4 h8 hnone
+      have hz := (hrex.mp hnone).1
+      have h4' : r0 ≥ 4#32 := by simpa [BitVec.le_def] using h4
+      rw [← hopt] at hz
+      simp only [fix1, fixK, oRex, oInvalidRex, beq_self_eq_true, Bool.true_or, ↓reduceIte, show (RegKind.gpb == RegKind.gpbhi) = false from rfl,
+        Bool.false_eq_true, h4'] at hz
+      bv_decide
+    · subst h
+      have e : rb = r0 + 4#32 := by rw [← hrb]; simp [fix1, fixK]
+      have a := h0' rfl
+      refine regOkB_gpbhi _ _ p ?_ (hrex.mpr ?_)
+      · rw [e]
+        have : r0.toNat < 4 := by simpa [BitVec.lt_def] using a
+        simp [BitVec.toNat_add]; omega
+      · simp only [extractRex] at hok
+        rw [← hopt, ← hrb] at hok ⊢
+        simp only [fix1, fixK, oRex, oInvalidRex, beq_self_eq_true, Bool.or_true, ↓reduceIte] at hok ⊢
+        refine ⟨?_, ?_, ?_, ?_⟩ <;> bv_decide
+    · have e : rb = r0 := by
+        obtain ⟨n1, n2, -⟩ := h
+        have e1 : (k0 == RegKind.gpb) = false := by simpa using n2
+        have e2 : (k0 == RegKind.gpbhi) = false := by simpa using n1
+        rw [← hrb]; simp [fix1, e1, e2]
+      exact regOkB_plain k0 _ _ p h (by rw [e])
+
+/-- shape [rm]: one register operand of any kind (incl. AH..BH, SPL..DIL); ModRM.reg = the digit `d` the class hands over (free when the form has none) -/
+theorem rOnly_formOk (ctx : Spec.X86.Ctx) (rule : Rule) (opcode d r0 : BitVec 32) (k0 : RegKind) (f0 : FormOp) (dr : Nat)
+    (hm64 : ctx.mode64 = true) (hmode : (rule.modes &&& 2 != 0) = true) (hopc : opcode &&& 0xF7801C00#32 = 0#32)
+    (hk0 : k0 = .gpb ∨ k0 = .gpbhi ∨ PlainKind k0) (hd : d < 8#32)
+    (h0 : r0 < 16#32) (h0' : k0 = .gpbhi → r0 < 4#32)
+    (R : LegRuleD rule 0 ((opcode >>> 21) &&& 3#32).toNat dr) (hdr : dr < 8 → d.toNat = dr) (A : LegAgree rule opcode)
+    (hr0 : f0.role = .rm)
+    (hal : alignOps rule.oszEff rule.ops [.reg k0 r0.toNat] = some [(f0, some (.reg k0 r0.toNat))])
+    (bytes : List (BitVec 8))
+    (hb : emitX86R opcode (fix1 k0 r0).1 d (fix1 k0 r0).2 0 0 = .ok bytes) :
+    formOk ctx rule [.reg k0 r0.toNat] {} bytes = true := by
+  generalize hopt : (fix1 k0 r0).1 = opt at hb
+  generalize hrb : (fix1 k0 r0).2 = rb at hb
+  have hfacts : opt &&& 0x3FFFFFFF#32 = 0#32 ∧ rb < 16#32 := by
+    rw [← hopt, ← hrb]
+    rcases hk0 with h | h | h
+    · subst h
+      simp only [fix1, fixK, oRex, oInvalidRex, beq_self_eq_true, Bool.true_or, ↓reduceIte, show (RegKind.gpb == RegKind.gpbhi) = false from rfl, Bool.false_eq_true]
+      split <;> refine ⟨?_, ?_⟩ <;> bv_decide
+    · subst h
+      have a := h0' rfl
+      simp only [fix1, fixK, oRex, oInvalidRex, beq_self_eq_true, Bool.or_true, ↓reduceIte]
+      refine ⟨?_, ?_⟩ <;> bv_decide
+    · obtain ⟨n1, n2, -⟩ := h
+      have e1 : (k0 == RegKind.gpb) = false := by simpa using n2
+      have e2 : (k0 == RegKind.gpbhi) = false := by simpa using n1
+      simp only [fix1, e1, e2, Bool.or_self, Bool.false_eq_true, ↓reduceIte]
+      exact ⟨by decide, h0⟩
+  obtain ⟨hoptm, hrb16⟩ := hfacts
+  by_cases hok : (extractRex opcode opt ||| ((d &&& 8#32) >>> 1) ||| ((rb &&& 8#32) >>> 3)) > 0x80#32
+  · rw [emitX86R_invalidRex opcode opt d rb 0 0 hok] at hb
+    cases hb
+  · obtain ⟨bytes', p, hb', hp, P, hR, hB, hi, hrex, hvk⟩ := x86R_parsedO rule opcode opt d rb 0 0 hopc hoptm (by bv_decide) hrb16 hok dr R A
+    rw [hb'] at hb
+    injection hb with hb
+    subst hb
+    refine leg_r_formOkG ctx rule p _ _ _ dr k0 f0 _ (by simpa [hm64] using hmode) R
+      (fun h => by rw [modrmRR_reg d rb hd]; exact hdr h) hr0 ?_ hal (by rw [hm64]; exact hp) P
+    rw [hB]
+    rcases hk0 with h | h | h
+    · subst h
+      have e : rb = r0 := by rw [← hrb]; simp [fix1, fixK]
+      refine regOkB_gpb _ _ p (by rw [e]) ?_
+      intro h4 h8 hnone
+      have hz := (hrex.mp hnone).1
+      have h4' : r0 ≥ 4#32 := by simpa [BitVec.le_def] using h4
+      rw [← hopt] at hz
+      simp only [fix1, fixK, oRex, oInvalidRex, beq_self_eq_true, Bool.true_or, ↓reduceIte, show (RegKind.gpb == RegKind.gpbhi) = false from rfl,
+        Bool.false_eq_true, h4'] at hz
+      bv_decide
+    · subst h
+      have e : rb = r0 + 4#32 := by rw [← hrb]; simp [fix1, fixK]
+      have a := h0' rfl
+      refine regOkB_gpbhi _ _ p ?_ (hrex.mpr ?_)
+      · rw [e]
+        have : r0.toNat < 4 := by simpa [BitVec.lt_def] using a
+        simp [BitVec.toNat_add]; omega
+      · simp only [extractRex] at hok
+        rw [← hopt, ← hrb] at hok ⊢
+        simp only [fix1, fixK, oRex, oInvalidRex, beq_self_eq_true, Bool.or_true, ↓reduceIte] at hok ⊢
+        refine ⟨?_, ?_, ?_, ?_⟩ <;> bv_decide
+    · have e : rb = r0 := by
+        obtain ⟨n1, n2, -⟩ := h
+        have e1 : (k0 == RegKind.gpb) = false := by simpa using n2
+        have e2 : (k0 == RegKind.gpbhi) = false := by simpa using n1
+        rw [← hrb]; simp [fix1, e1, e2]
+      exact regOkB_plain k0 _ _ p h (by rw [e])
+
+/-! ### immediates of 16 / 32 bits and sign-extended immediates -/
+
+/-- the encoder's immediate bytes are the little-endian bytes the monitor expects -/
+theorem emitImmediate_leBytes (x : BitVec 64) (n : Nat) : emitImmediate x n = leBytes x.toNat n := by
+  induction n generalizing x with
+  | zero => rfl
+  | succ n ih =>
+    simp only [emitImmediate, leBytes, ih]
+    have e1 : (x >>> 8).toNat = x.toNat / 256 := by simp [BitVec.toNat_ushiftRight, Nat.shiftRight_eq_div_pow]
+    have e2 : (x.truncate 8 : BitVec 8) = BitVec.ofNat 8 x.toNat := by
+      apply BitVec.eq_of_toNat_eq; simp [BitVec.truncate, BitVec.toNat_setWidth]
+    rw [e1, e2]
+
+theorem emitImmediate_sext32 (v : BitVec 64) : emitImmediate (signExtendInt32 v) 4 = emitImmediate v 4 := by
+  simp only [emitImmediate, signExtendInt32]
+  have e0 : BitVec.truncate 8 (BitVec.signExtend 64 (BitVec.truncate 32 v)) = BitVec.truncate 8 v := by bv_decide
+  have e1 : BitVec.truncate 8 (BitVec.signExtend 64 (BitVec.truncate 32 v) >>> 8) = BitVec.truncate 8 (v >>> 8) := by bv_decide
+  have e2 : BitVec.truncate 8 (BitVec.signExtend 64 (BitVec.truncate 32 v) >>> 8 >>> 8) = BitVec.truncate 8 (v >>> 8 >>> 8) := by bv_decide
+  have e3 : BitVec.truncate 8 (BitVec.signExtend 64 (BitVec.truncate 32 v) >>> 8 >>> 8 >>> 8) = BitVec.truncate 8 (v >>> 8 >>> 8 >>> 8) := by bv_decide
+  rw [e0, e1, e2, e3]
+
+/-- sign-extended imm8: congruent to the value modulo every operand size -/
+theorem sext8_mod (x : BitVec 64) (h : isInt8of64 x = true) :
+    sextNat (x.truncate 8 : BitVec 8).toNat 8 % ((2 ^ 64 : Nat) : Int) = ((x.toNat % 2 ^ 64 : Nat) : Int) ∧
+    sextNat (x.truncate 8 : BitVec 8).toNat 8 % ((2 ^ 32 : Nat) : Int) = ((x.toNat % 2 ^ 32 : Nat) : Int) ∧
+    sextNat (x.truncate 8 : BitVec 8).toNat 8 % ((2 ^ 16 : Nat) : Int) = ((x.toNat % 2 ^ 16 : Nat) : Int) := by
+  have hb : x ≤ 127#64 ∨ x ≥ 0xFFFFFFFFFFFFFF80#64 := by simp only [isInt8of64] at h; bv_decide
+  simp only [sextNat, BitVec.truncate, BitVec.toNat_setWidth]
+  have hlt := x.isLt
+  simp only [Nat.reducePow, Nat.reduceSub] at *
+  rcases hb with hb | hb
+  · have : x.toNat ≤ 127 := by simpa [BitVec.le_def] using hb
+    refine ⟨?_, ?_, ?_⟩ <;> split <;> omega
+  · have : x.toNat ≥ 18446744073709551488 := by simpa [BitVec.le_def] using hb
+    refine ⟨?_, ?_, ?_⟩ <;> split <;> omega
+
+/-- sign-extended imm32 under REX.W -/
+theorem sext32_mod (x : BitVec 64) (h : isInt32of64 x = true) :
+    sextNat (x.toNat % 2 ^ 32) 32 % ((2 ^ 64 : Nat) : Int) = ((x.toNat % 2 ^ 64 : Nat) : Int) := by
+  have hb : x ≤ 0x7FFFFFFF#64 ∨ x ≥ 0xFFFFFFFF80000000#64 := by simp only [isInt32of64] at h; bv_decide
+  simp only [sextNat]
+  have hlt := x.isLt
+  simp only [Nat.reducePow, Nat.reduceSub] at *
+  rcases hb with hb | hb
+  · have : x.toNat ≤ 2147483647 := by simpa [BitVec.le_def] using hb
+    split <;> omega
+  · have : x.toNat ≥ 18446744071562067968 := by simpa [BitVec.le_def] using hb
+    split <;> omega
+
+/-- the immediate conditions of the monitor, from the two alternatives it evaluates (plain little-endian bytes, or a sign-extended value
+compared modulo the operand size) -/
+theorem immConds_ok (ctx : Spec.X86.Ctx) (rule : Rule) (p : Parsed) (f3 : FormOp) (v : BitVec 64)
+    (hf3 : f3.role = .imm) (hnb : immBitsOf f3 ≠ 4) (hrev : rule.immRev = false)
+    (h : (if immSignOf f3 == 1 && rule.oszEff != 0 && 8 * immBytesOf (immBitsOf f3) < rule.oszEff then
+            decide (sextNat (leNat (p.imm.take (immBytesOf (immBitsOf f3)))) (8 * immBytesOf (immBitsOf f3)) % ((2 ^ rule.oszEff : Nat) : Int) =
+                    ((v.toNat % 2 ^ rule.oszEff : Nat) : Int))
+          else p.imm.take (immBytesOf (immBitsOf f3)) == leBytes v.toNat (immBytesOf (immBitsOf f3))) = true) :
+    allOk (opConds ctx rule p 0 f3 (.imm v)).1 = true := by
+  have hnb' : (immBitsOf f3 == 4) = false := by simpa using hnb
+  simp only [opConds, hf3, hnb', hrev, Bool.false_eq_true, ↓reduceIte, List.drop]
+  split
+  · rename_i hc
+    simp only [hc, ↓reduceIte, decide_eq_true_eq] at h
+    simp [allOk]
+    push_cast at h
+    exact h
+  · rename_i hc
+    simp only [hc, Bool.false_eq_true, ↓reduceIte] at h
+    simp [allOk, h]
+
+/-- shape [rm, imm] with digit `d`, register of a 16 / 32 / 64-bit kind, ANY immediate the monitor's immediate conditions accept -/
+theorem rmImm_formOk (ctx : Spec.X86.Ctx) (rule : Rule) (opcode d r0 : BitVec 32) (k0 : RegKind) (f0 f3 : FormOp) (v imm1 : BitVec 64) (isz : Nat)
+    (hm64 : ctx.mode64 = true) (hmode : (rule.modes &&& 2 != 0) = true) (hopc : opcode &&& 0xF7801C00#32 = 0#32)
+    (hk0 : PlainKind k0) (hd : d < 8#32) (h0 : r0 < 16#32)
+    (R : LegRuleD rule isz ((opcode >>> 21) &&& 3#32).toNat d.toNat) (A : LegAgree rule opcode)
+    (hr0 : f0.role = .rm)
+    (hic : ∀ p : Parsed, p.imm = emitImmediate imm1 isz → allOk (opConds ctx rule p 0 f3 (.imm v)).1 = true)
+    (hal : alignOps rule.oszEff rule.ops [.reg k0 r0.toNat, .imm v] = some [(f0, some (.reg k0 r0.toNat)), (f3, some (.imm v))]) :
+    ∃ bytes, emitX86R opcode 0#32 d r0 imm1 isz = .ok bytes ∧ formOk ctx rule [.reg k0 r0.toNat, .imm v] {} bytes = true := by
+  have hok : ¬ (extractRex opcode 0#32 ||| ((d &&& 8#32) >>> 1) ||| ((r0 &&& 8#32) >>> 3)) > 0x80#32 := by
+    simp only [extractRex]; bv_decide
+  obtain ⟨bytes, p, hb', hp, P, hR, hB, hi, hrex, hvk⟩ := x86R_parsedO rule opcode 0#32 d r0 imm1 isz hopc (by decide) (by bv_decide) h0 hok d.toNat R A
+  refine ⟨bytes, hb', ?_⟩
+  refine leg_rm_imm_formOkG ctx rule p _ _ _ d.toNat isz k0 f0 f3 _ v (by simpa [hm64] using hmode) R
+    (by simpa [BitVec.lt_def] using hd) (modrmRR_reg d r0 hd) hr0 (hic p hi) ?_ hal (by rw [hm64]; exact hp) P
+  rw [hB]
+  exact regOkB_plain k0 _ _ p hk0 rfl
+
+/-! ### accumulator short forms: `EmitX86Op` with an immediate -/
+
+theorem emitX86Op_bytesI (opcode : BitVec 32) (imm : BitVec 64) (n : Nat) (hopc : opcode &&& 0xF7801C00#32 = 0#32) :
+    emitX86Op opcode 0#32 imm n =
+      .ok (ppBytes ((opcode >>> 21) &&& 3#32).toNat ++ (rexOf opcode 0#32 0#32).toList ++ legacyEscape ((opcode >>> 8) &&& 3#32).toNat ++
+           opcode.truncate 8 :: emitImmediate imm n) := by
+  have hrex : ¬ (extractRex opcode 0#32) > 0x80#32 := by simp only [extractRex]; bv_decide
+  have e : extractRex opcode 0#32 ||| ((0#32 &&& 8#32) >>> 1) ||| ((0#32 &&& 8#32) >>> 3) = extractRex opcode 0#32 := by bv_decide
+  simp only [emitX86Op, emitRex, hrex, ↓reduceIte, bind, Except.bind, pure, Except.pure,
+    emitPP_eq opcode (by bv_decide), emitMM_eq opcode (by bv_decide), rexOf, e]
+  split <;> simp
+
+/-- `EmitX86Op` with an immediate: shape [fixed accumulator (not encoded), imm] -/
+theorem accImm_formOk (ctx : Spec.X86.Ctx) (rule : Rule) (opcode : BitVec 32) (k : RegKind) (f0 f3 : FormOp) (id : Nat) (v imm1 : BitVec 64) (isz : Nat)
+    (hm64 : ctx.mode64 = true) (hmode : (rule.modes &&& 2 != 0) = true) (hopc : opcode &&& 0xF7801C00#32 = 0#32)
+    (hs : rule.space = 0) (hpp8 : rule.pp &&& 8 = 0)
+    (h66 : (rule.pp &&& 1 != 0 || rule.osz == 16) = (((opcode >>> 21) &&& 3#32).toNat == 1))
+    (hF3 : (rule.pp &&& 2 != 0) = (((opcode >>> 21) &&& 3#32).toNat == 2)) (hF2 : (rule.pp &&& 4 != 0) = (((opcode >>> 21) &&& 3#32).toNat == 3))
+    (hri : rule.ri = false) (ha67 : rule.a67 = false) (hmk : rule.modKind = 0)
+    (himm : rule.immBytes = isz) (hrel : rule.relBytes = 0) (hmoff : rule.moff = false) (A : LegAgree rule opcode)
+    (hf0 : f0.role = .none)
+    (hic : ∀ p : Parsed, p.imm = emitImmediate imm1 isz → allOk (opConds ctx rule p 0 f3 (.imm v)).1 = true)
+    (hal : alignOps rule.oszEff rule.ops [.reg k id, .imm v] = some [(f0, some (.reg k id)), (f3, some (.imm v))]) :
+    ∃ bytes, emitX86Op opcode 0#32 imm1 isz = .ok bytes ∧ formOk ctx rule [.reg k id, .imm v] {} bytes = true := by
+  obtain ⟨hop, hmap, hw, hsafe⟩ := A
+  refine ⟨_, emitX86Op_bytesI opcode imm1 isz hopc, ?_⟩
+  have hpplt : ((opcode >>> 21) &&& 3#32).toNat < 4 := by
+    have : (opcode >>> 21) &&& 3#32 < 4#32 := by bv_decide
+    simpa [BitVec.lt_def] using this
+  have hmaplt : rule.map < 4 := by
+    rw [hmap]
+    have : (opcode >>> 8) &&& 3#32 < 4#32 := by bv_decide
+    simpa [BitVec.lt_def] using this
+  have hrexv : ∀ b, rexOf opcode 0#32 0#32 = some b → b >>> 4 = 4#8 ∧ (b.getLsbD 3 = opcode.getLsbD 27) := by
+    intro b hb'
+    unfold rexOf at hb'
+    dsimp only at hb'
+    split at hb'
+    · injection hb' with hb'; subst hb'; simp only [extractRex] at *; refine ⟨?_, ?_⟩ <;> bv_decide
+    · contradiction
+  have hnone : rexOf opcode 0#32 0#32 = none → opcode.getLsbD 27 = false := by
+    intro hn
+    unfold rexOf at hn
+    dsimp only at hn
+    split at hn
+    · contradiction
+    · rename_i hz; simp only [extractRex] at hz; bv_decide
+  have hrexH : ∀ b, rexOf opcode 0#32 0#32 = some b → b.toNat / 16 = 4 ∧ isLegacyPrefix b false = false := by
+    intro b hb'
+    obtain ⟨h4, -⟩ := hrexv b hb'
+    refine ⟨toNat_div16_eq4 b h4, ?_⟩
+    rw [Bool.eq_false_iff]
+    intro hh
+    simp only [isLegacyPrefix, Bool.or_eq_true, beq_iff_eq, Bool.false_and, Bool.or_false] at hh
+    bv_decide
+  have hoH : rule.map = 0 → isLegacyPrefix (opcode.truncate 8) false = false ∧
+      (rexOf opcode 0#32 0#32 = none → (opcode.truncate 8 : BitVec 8).toNat / 16 ≠ 4) := by
+    intro hm0
+    have hm0' : (opcode >>> 8) &&& 3#32 = 0#32 := by
+      apply BitVec.eq_of_toNat_eq; rw [← hmap, hm0]; rfl
+    obtain ⟨s1, s2⟩ := hsafe hm0'
+    refine ⟨s1, fun _ h => s2 ?_⟩
+    apply BitVec.eq_of_toNat_eq
+    simpa [BitVec.toNat_ushiftRight, Nat.shiftRight_eq_div_pow] using h
+  have hparse := parse_legacy_op_imm rule _ (rexOf opcode 0#32 0#32) (opcode.truncate 8) (emitImmediate imm1 isz) hpplt hs hpp8 hmaplt hmk hrexH hoH
+    (by rw [(imm_le_exact imm1 isz).1, himm, hrel]; rfl) hmoff
+  rw [hmap] at hparse
+  refine leg_acc_imm_formOk ctx rule _ _ _ k f0 f3 id v (by simpa [hm64] using hmode) hs hpp8 h66 hF3 hF2 hpplt hri ha67 hf0 (hic _ rfl) hal (by rw [hm64]; exact hparse)
+    rfl rfl rfl ?_ ?_
+  · show (opcode.truncate 8 : BitVec 8).toNat = rule.opcode
+    rw [hop]; exact toNat_eq_of_zext _ _ (by omega) (by bv_decide)
+  · rcases hw with h | h
+    · exact Or.inl h
+    · right
+      have hc : (opcode >>> 27) &&& 1#32 = 0#32 ∨ (opcode >>> 27) &&& 1#32 = 1#32 := by bv_decide
+      simp only [rexBit]
+      cases hr : rexOf opcode 0#32 0#32 with
+      | none =>
+        have w0 := hnone hr
+        rcases hc with hc | hc
+        · rw [h, hc]; simp
+        · exfalso; bv_decide
+      | some b =>
+        obtain ⟨-, wb⟩ := hrexv b hr
+        simp only [bit]
+        rcases hc with hc | hc
+        · rw [h, hc, wb]; simp; bv_decide
+        · rw [h, hc, wb]; simp; bv_decide
+
 end AsmjitVerif.Props.C01
